@@ -3226,6 +3226,9 @@ def resolve_immediates(items, constants, labels):
                 imm += 2
             else:
                 imm += 4
+            # the low part was taken after the AUIPC: the adjustment can push it past 0x7ff, while the
+            # AUIPC's %hi already carried for it, so it wraps around inside the signed 12-bit range
+            imm = relocate_lo(imm)
 
         d['imm'] = imm
 
